@@ -14,6 +14,7 @@ import Driver.Proto
 import Driver.Sync
 import Driver.Contracts
 import Driver.RewardsNode
+import Driver.Abi
 /-
 One line per handler object. The first handler that understands a line answers it.
 -/
@@ -40,7 +41,9 @@ def registry : List Obj := [
   pureObj pureProto,
   mkObj ([] : SyncSt) syncStep,
   contractObj,
-  rewardsNodeObj
+  rewardsNodeObj,
+  pureObj pureAbi,
+  pureObj pureArRecv
 ]
 
 end ZV.Driver
